@@ -93,6 +93,90 @@ theorem spawn_rawfd_after_fallible_inconsistent :
       ⟨[.ok 5, .ok 0, .ok 77, .ok 0, .ok 0, .ok 0, .ok 0, .ok 0], [], none⟩).cfg.st.closed.contains 2 = true := by
   decide +kernel
 
+/-! ## whatever the descriptor table holds at entry (0, 1, 2 free; nearly full; anything)
+
+`LeakFree` speaks of slots.  Here the same operations run against a kernel table (`runK`): a creation gets
+the lowest free NUMBER, so when 0, 1 or 2 are free at entry the operation's descriptors are the "standard"
+numbers.  Nothing in the statement may depend on which numbers those are. -/
+
+/-- The property at the level of the process's descriptor table.  The operation is entered holding the
+    slots `own` (with their numbers) while `T` are the other numbers open in the process — ANY duplicate-free
+    list.  For every oracle and fuel: the number-level run is the slot-level run (same outcome, trace,
+    slots); the table is, at every cut, the numbers bound to the operation's slots followed by `T` itself,
+    entry for entry (no foreign number was released, none was bound again); no number is open twice; no
+    slot is held twice; and when the operation returns the slots it still holds are exactly the handed
+    ones — so the table is `T` plus one fresh number per descriptor handed to the caller. -/
+def TableRestored (own : List (Var × Nat)) (s : Script) : Prop :=
+  ∀ (T : List Nat), (own.map (·.2) ++ T).Nodup → ∀ (fuel : Nat) (o : Oracle),
+    let r := execK T own s fuel o
+    r.1 = exec (own.map (·.1)) s fuel o ∧
+    r.2.tab = numsOf r.2.bind ++ T ∧ r.2.tab.Nodup ∧ (r.2.bind.map Prod.fst).Nodup ∧
+    ∀ ok h, r.1.out = .ret ok h → ∀ v, v ∈ r.2.bind.map Prod.fst ↔ v ∈ h
+
+theorem numsOf_init (own : List (Var × Nat)) : numsOf (own.map (fun p => (p.1, some p.2))) = own.map (·.2) := by
+  induction own with
+  | nil => rfl
+  | cons e r ih => simp [numsOf, ih]
+
+theorem kinv_init (T : List Nat) (own : List (Var × Nat)) (h : (own.map (·.2) ++ T).Nodup) :
+    KInv T (St.init (own.map (·.1))) (KTab.init T own) := by
+  refine ⟨by simp [KTab.init, St.init, List.map_map, Function.comp_def], ?_, by simpa [KTab.init] using h⟩
+  simp only [KTab.init, numsOf_init]
+
+/-- an accepted script restores the table, for EVERY entry table -/
+theorem chk_table_restored (own : List (Var × Nat)) (s : Script) :
+    chk (own.map (·.1)) s = true → TableRestored own s := by
+  intro h T hn fuel o
+  obtain ⟨_, _, l3, l4⟩ := chk_sound _ _ h fuel o
+  have e : (execK T own s fuel o).1 = exec (own.map (·.1)) s fuel o := runK_fst _ _ _ _
+  obtain ⟨i1, i2, i3⟩ := runK_inv T fuel s (Cfg.init (own.map (fun p : Var × Nat => p.1)) o) (KTab.init T own) (kinv_init T own hn)
+  have i1' : (execK T own s fuel o).2.bind.map Prod.fst = (exec (own.map (·.1)) s fuel o).cfg.st.opn := by
+    rw [← e]; exact i1
+  refine ⟨e, i2, i3, by rw [i1']; exact l3, ?_⟩
+  intro ok hd ho v
+  rw [i1']
+  rw [e] at ho
+  exact l4 ok hd ho v
+
+/-- every operation of the current code, entered with any numbers for the slots it is given -/
+theorem every_op_table_restored : ∀ e ∈ Ops.cur, ∀ (ownN : List Nat), ownN.length = e.2.1.length →
+    TableRestored (e.2.1.zip ownN) e.2.2 := by
+  intro e he ownN hl
+  apply chk_table_restored
+  have hz : (e.2.1.zip ownN).map (·.1) = e.2.1 := by
+    have : (fun (p : Var × Nat) => p.1) = Prod.fst := rfl
+    rw [this, List.map_fst_zip]
+    omega
+  rw [hz]
+  have := all_ops_leakfree
+  rw [List.all_eq_true] at this
+  exact this e he
+
+/-- the kernel's rule, as modelled: the number handed out is free, and every lower one is taken -/
+theorem lowestFree_spec (t : List Nat) : lowestFree t ∉ t ∧ ∀ m, m < lowestFree t → m ∈ t :=
+  ⟨lowestFree_not_mem t, lowestFree_least t⟩
+
+/-- non-vacuity / what it looks like: File::open with 0 free gets number 0 and hands it out; fs::read with 0
+    and 2 free (table 1,3,4) reads through number 0 and leaves 1,3,4; spawn with three pipes and 0,1,2 free
+    creates 0,1,2,5,6,7,8,9 and returns with the caller's three ends (1, 2 and 6: the write end of the stdin
+    pipe, the read ends of the other two) added to 3,4; an in-progress tcp stream given as number 4 whose
+    connect fails leaves 1,2,3 -/
+example : ((execK [1, 2, 3, 4] [] fileOpen 10 ⟨[.ok 0], [true], none⟩).2.tab,
+    (execK [1, 2, 3, 4] [] fileOpen 10 ⟨[.ok 0], [true], none⟩).2.nums) = ([0, 1, 2, 3, 4], [0]) := by decide +kernel
+example : ((execK [1, 3, 4] [] (fsRead false) 20 ⟨[.ok 0, .ok 32, .ok 0, .ok 0], [true], none⟩).2.tab,
+    (execK [1, 3, 4] [] (fsRead false) 20 ⟨[.ok 0, .ok 32, .ok 0, .ok 0], [true], none⟩).2.nums) = ([1, 3, 4], [0]) := by
+  decide +kernel
+example : ((execK [3, 4] [] (spawn true allPipe [] 0) 100
+      ⟨[.ok 0, .ok 0, .ok 0, .ok 0, .ok 77, .ok 0, .ok 0, .ok 0, .ok 0, .ok 0, .ok 0], [], none⟩).2.nums.reverse,
+    (execK [3, 4] [] (spawn true allPipe [] 0) 100
+      ⟨[.ok 0, .ok 0, .ok 0, .ok 0, .ok 77, .ok 0, .ok 0, .ok 0, .ok 0, .ok 0, .ok 0], [], none⟩).2.tab)
+    = ([0, 1, 2, 5, 6, 7, 8, 9], [6, 2, 1, 3, 4]) := by decide +kernel
+example : (execK [1, 2, 3] [(0, 4)] inProgressTry 10 ⟨[.err 111, .ok 0], [], none⟩).2.tab = [1, 2, 3] := by decide +kernel
+/-- and what a release that does not happen looks like at this level (getpwuid_r before its repair, 0 free):
+    the table afterwards is 0,1,2 — by numbers alone an ordinary table; only the comparison with the entry
+    table (1,2) shows the leak -/
+example : (execK [1, 2] [] (getpwuid false) 10 ⟨[.ok 0, .ok 256], [true, true], none⟩).2.tab = [0, 1, 2] := by decide +kernel
+
 /-! ## the code before the repairs: leaking paths (each replayed on the implementation, see known_findings.d/C12.jsonl) -/
 
 /-- every operation that was repaired failed the checker -/
